@@ -278,6 +278,8 @@ def describe(v):
     """comparable description of a rendered / returned value"""
     if v is None or isinstance(v, (str, int, float, bool)):
         return [type(v).__name__, v]
+    if isinstance(v, bytes):
+        return ['bytes', v.hex()]
     if isinstance(v, (list, tuple)):
         return [type(v).__name__, [describe(x) for x in v]]
     if isinstance(v, dict):
